@@ -9,6 +9,7 @@ package main
 // the smoothing idiom (1-s)*x + s*y with 0 <= s <= 1.
 
 import (
+	"sort"
 	"fmt"
 	"go/token"
 	"go/types"
@@ -203,6 +204,32 @@ func (pr *prover) sym(v ssa.Value) string {
 		if b, ok := cc.Value.(*ssa.Builtin); ok && b.Name() == "len" && len(cc.Args) == 1 {
 			if in := pr.sym(cc.Args[0]); in != "" {
 				return "len(" + in + ")"
+			}
+		}
+		// pure functions of nameable operands: builtin min / max, the math min / max / ceil / floor / sqrt family
+		if name, args := pr.mathCall(x); name != "" && len(args) > 0 {
+			var parts []string
+			for _, a := range args {
+				in := pr.sym(a)
+				if in == "" {
+					return ""
+				}
+				parts = append(parts, in)
+			}
+			if name == "min" || name == "max" {
+				sort.Strings(parts)
+			}
+			return name + "(" + strings.Join(parts, ",") + ")"
+		}
+	case *ssa.BinOp:
+		switch x.Op {
+		case token.ADD, token.SUB, token.MUL, token.QUO:
+			a, b := pr.sym(x.X), pr.sym(x.Y)
+			if a != "" && b != "" {
+				if (x.Op == token.ADD || x.Op == token.MUL) && b < a {
+					a, b = b, a
+				}
+				return "(" + a + x.Op.String() + b + ")"
 			}
 		}
 	}
